@@ -95,3 +95,76 @@ package traffic
 //@   ensures never-beyond-owed: bigval(traffic.retrieveChequeTraffic) <= bigval(traffic.retrieveTraffic) || bigval(traffic.retrieveChequeTraffic) == sent0
 //@   ensures success-means-delivered: result == nil ==> delivered == old(delivered) + 1
 //@   callassert Interface.EmitCheque cheque-carries-raised-total: $cheque != nil && $cheque.Cheque.CumulativePayout != nil && bigval($cheque.Cheque.CumulativePayout) == sent0 + amount && $cheque.Cheque.Recipient == recipient && $cheque.Cheque.Beneficiary == beneficiary
+
+//@ # ---- C33: traffic totals survive restarts ---------------------------------------------------
+//@ # the totals of a record are read and written only under the record's own lock
+//@ guarded Traffic: retrieveTraffic, transferTraffic for C33
+//@ # what the cheque store has persisted for a peer (proved for the implementation in
+//@ # pkg/settlement/traffic/cheque: Get*Traffic returns what Put*Traffic stored)
+//@ spec func savedR(store int, a common.Address) int
+//@ spec func savedT(store int, a common.Address) int
+//@ extern func (github.com/gauss-project/aurorafs/pkg/settlement/traffic/cheque.ChequeStore).GetRetrieveTraffic
+//@   ensures err == nil ==> traffic != nil && bigval(traffic) == savedR(ref(self), chainAddress)
+//@   assigns nothing
+//@ extern func (github.com/gauss-project/aurorafs/pkg/settlement/traffic/cheque.ChequeStore).GetTransferTraffic
+//@   ensures err == nil ==> traffic != nil && bigval(traffic) == savedT(ref(self), chainAddress)
+//@   assigns nothing
+//@ extern func (github.com/gauss-project/aurorafs/pkg/settlement/traffic/cheque.ChequeStore).PutRetrieveTraffic
+//@   assigns nothing
+//@ extern func (github.com/gauss-project/aurorafs/pkg/settlement/traffic/cheque.ChequeStore).PutTransferTraffic
+//@   assigns nothing
+
+//@ func (*Service).maxBigint
+//@   property C33
+//@   requires a != nil && b != nil
+//@   ensures (result == a || result == b) && bigval(result) == max(bigval(a), bigval(b))
+//@   assigns nothing
+
+//@ func (*Service).PutRetrieveTraffic
+//@   property C33
+//@   requires s.addressBook != nil && s.chequeStore != nil && traffic != nil && s.trafficPeers.trafficPeers != nil
+//@   requires forall k string :: present(s.trafficPeers.trafficPeers, k) ==> s.trafficPeers.trafficPeers[k] != nil && s.trafficPeers.trafficPeers[k].retrieveTraffic != nil
+//@   let reg = registered(ref(s.addressBook), peer)
+//@   let total0 = ite(trafficOf(s, registered(ref(s.addressBook), peer)) == nil, 0, bigval(trafficOf(s, registered(ref(s.addressBook), peer)).retrieveTraffic))
+//@   let add = bigval(traffic)
+//@   ensures unknown-peer-rejected: !isRegistered(ref(s.addressBook), peer) ==> result != nil
+//@   ensures total-raised: isRegistered(ref(s.addressBook), peer) ==> trafficOf(s, reg) != nil && bigval(trafficOf(s, reg).retrieveTraffic) == total0 + add
+//@   callassert ChequeStore.PutRetrieveTraffic persisted-under-the-record-lock: locked(trafficOf(s, reg))
+//@   callassert ChequeStore.PutRetrieveTraffic persisted-the-new-total: $chainAddress == reg && $traffic != nil && bigval($traffic) == total0 + add
+
+//@ func (*Service).PutTransferTraffic
+//@   property C33
+//@   requires s.addressBook != nil && s.chequeStore != nil && traffic != nil && s.trafficPeers.trafficPeers != nil
+//@   requires forall k string :: present(s.trafficPeers.trafficPeers, k) ==> s.trafficPeers.trafficPeers[k] != nil && s.trafficPeers.trafficPeers[k].transferTraffic != nil
+//@   let reg = registered(ref(s.addressBook), peer)
+//@   let total0 = ite(trafficOf(s, registered(ref(s.addressBook), peer)) == nil, 0, bigval(trafficOf(s, registered(ref(s.addressBook), peer)).transferTraffic))
+//@   let add = bigval(traffic)
+//@   ensures unknown-peer-rejected: !isRegistered(ref(s.addressBook), peer) ==> result != nil
+//@   ensures total-raised: isRegistered(ref(s.addressBook), peer) ==> trafficOf(s, reg) != nil && bigval(trafficOf(s, reg).transferTraffic) == total0 + add
+//@   callassert ChequeStore.PutTransferTraffic persisted-under-the-record-lock: locked(trafficOf(s, reg))
+//@   callassert ChequeStore.PutTransferTraffic persisted-the-new-total: $chainAddress == reg && $traffic != nil && bigval($traffic) == total0 + add
+
+//@ # restore after a restart: totals are at least the chain record, the last cheque and what was persisted
+//@ func (*Service).trafficPeerChequeUpdate
+//@   property C33
+//@   requires s.chequeStore != nil && s.trafficPeers.trafficPeers != nil
+//@   requires forall k string :: present(s.trafficPeers.trafficPeers, k) ==> s.trafficPeers.trafficPeers[k] != nil && s.trafficPeers.trafficPeers[k].retrieveChainTraffic != nil && s.trafficPeers.trafficPeers[k].transferChainTraffic != nil
+//@   requires forall a common.Address :: present(lastCheques, a) ==> lastCheques[a] != nil && lastCheques[a].CumulativePayout != nil
+//@   requires forall a common.Address :: present(lastTransCheques, a) ==> lastTransCheques[a] != nil && lastTransCheques[a].Cheque.CumulativePayout != nil
+//@   let rec0 = trafficOf(s, peerAddress)
+//@   let chainR = ite(trafficOf(s, peerAddress) == nil, 0, bigval(trafficOf(s, peerAddress).retrieveChainTraffic))
+//@   let chainT = ite(trafficOf(s, peerAddress) == nil, 0, bigval(trafficOf(s, peerAddress).transferChainTraffic))
+//@   let sentR = ite(present(lastCheques, peerAddress), bigval(lastCheques[peerAddress].CumulativePayout), 0)
+//@   let recvT = ite(present(lastTransCheques, peerAddress), bigval(lastTransCheques[peerAddress].Cheque.CumulativePayout), 0)
+//@   ensures record-exists: trafficOf(s, peerAddress) != nil && (rec0 != nil ==> trafficOf(s, peerAddress) == rec0)
+//@   ensures retrieve-covers-chain: result == nil ==> bigval(trafficOf(s, peerAddress).retrieveTraffic) >= chainR
+//@   ensures retrieve-covers-last-sent-cheque: result == nil && present(lastCheques, peerAddress) ==> bigval(trafficOf(s, peerAddress).retrieveTraffic) >= sentR
+//@   ensures retrieve-covers-persisted: result == nil ==> bigval(trafficOf(s, peerAddress).retrieveTraffic) >= savedR(ref(s.chequeStore), peerAddress)
+//@   ensures cheque-total-covers-last-sent-cheque: result == nil && present(lastCheques, peerAddress) ==> bigval(trafficOf(s, peerAddress).retrieveChequeTraffic) >= sentR
+//@   ensures cheque-total-covers-chain: result == nil ==> bigval(trafficOf(s, peerAddress).retrieveChequeTraffic) >= chainR
+//@   ensures nothing-paid-is-owed-again: result == nil ==> bigval(trafficOf(s, peerAddress).retrieveTraffic) >= bigval(trafficOf(s, peerAddress).retrieveChequeTraffic)
+//@   ensures transfer-covers-chain: result == nil ==> bigval(trafficOf(s, peerAddress).transferTraffic) >= chainT
+//@   ensures transfer-covers-last-received-cheque: result == nil && present(lastTransCheques, peerAddress) ==> bigval(trafficOf(s, peerAddress).transferTraffic) >= recvT && bigval(trafficOf(s, peerAddress).transferChequeTraffic) >= recvT
+//@   ensures transfer-covers-persisted: result == nil ==> bigval(trafficOf(s, peerAddress).transferTraffic) >= savedT(ref(s.chequeStore), peerAddress)
+//@   ensures received-cheque-total-covers-chain: result == nil ==> bigval(trafficOf(s, peerAddress).transferChequeTraffic) >= chainT
+//@   ensures chain-records-untouched: rec0 != nil ==> bigval(rec0.retrieveChainTraffic) == chainR && bigval(rec0.transferChainTraffic) == chainT
